@@ -247,7 +247,7 @@ def run(tier, seed, out, drv, facts):
     cases = list(nest_cases(rng, thorough))
     specs = [spec(d2, made(d1, aty, s1), s2) for d1, d2, s1, s2, aty in cases]
     reals = compare_model(out, drv, specs, "nest")
-    n_law = 8000 if thorough else 1500
+    n_law = 25000 if thorough else 1500
     idx = set(rng.sample(range(len(cases)), min(n_law, len(cases))))
     for i, ((d1, d2, s1, s2, aty), r) in enumerate(zip(cases, reals)):
         c1, c2 = cat_spec(d1)["dtypes"], cat_spec(d2)["dtypes"]
@@ -260,7 +260,7 @@ def run(tier, seed, out, drv, facts):
     # three levels
     deep, deep_meta = [], []
     wide = ["Shaped", "Num", "Real", "Inexact", "Integer"]
-    for k in range(1500 if thorough else 300):
+    for k in range(8000 if thorough else 300):
         # the middle level is often wider than what lies beneath it: then the effective dtypes of the
         # middle annotation differ from those of the category it was written with
         d1, d2, d3 = rng.choice(CATS), (rng.choice(wide) if k % 2 else rng.choice(CATS)), rng.choice(CATS)
